@@ -32,6 +32,7 @@ _noise = re.compile(r'^(Parsing file|Semantic processing|Linting of module|Progr
 def run(module, cfg=None, env=None, workers=16, timeout=3600, simulate=None, depth=None, seed=None,
         coverage=False, extra=(), heap=None, deadlock=False):
     """Run TLC on spec/<module>.tla with spec/<cfg> (default <module>.cfg)."""
+    workers = int(os.environ.get('VERIF_TLC_WORKERS', workers))
     meta = tempfile.mkdtemp(prefix='tlc-meta-')
     cfg = cfg or (module + '.cfg')
     cmd = ['java', '-XX:+UseParallelGC']
